@@ -143,7 +143,24 @@ def events_for(st: LState):
         ev += [("del", 0), ("del", "f"), ("del", -1), ("repl", "f", "T1"), ("repl", "f", "E5"), ("repl", 0, "Z0")]
         # an item changes its own height in place (the list is not told)
         ev += [("retext", "f", 1), ("retext", "f", 4), ("retext", 0, 4)]
+    d = getattr(st, "depth", 0)
+    if d <= SEQ_DEPTH[0] + 1:
+        firsts = [e for e in ev if not isinstance(e, str) and ((e[0] == "focus" and e[2] is None) or (e[0] == "valign" and e[1] in ("top", "bottom")))]
+        seconds = [e for e in ev if not isinstance(e, str) and e[0] in ("del", "ins", "app", "repl", "retext", "resize")]
+        if d > SEQ_DEPTH[0]:
+            # one step deeper only the pairs (set_focus, delete)
+            firsts = [e for e in firsts if e[0] == "focus"]
+            seconds = [e for e in seconds if e[0] == "del"]
+        for a in firsts:
+            for b in seconds:
+                ev.append(("seq", a, b))
+                if b[0] == "ins" or (b[0] == "del" and a[0] == "valign") or (b[0] == "del" and a[0] == "focus" and a[1] < n - 1):
+                    ev.append(("seq", b, a))
     return ev
+
+
+SEQ_DEPTH = [0]
+ZERO_ROW_SITES = ("ListBoxError@urwid.widget.listbox.ListBox.shift_focus", "ListBoxError@urwid.widget.listbox.ListBox.change_focus")
 
 
 def widget_state(w):
@@ -219,7 +236,7 @@ class Spec:
             return
         except Exception as e:
             site = exc_site(e)
-            if kinds == "with-zero-row-item" and site == "ListBoxError@urwid.widget.listbox.ListBox.shift_focus":
+            if kinds == "with-zero-row-item" and site in ZERO_ROW_SITES:
                 ctx.violation("no-raise", f"C07/raises/zero-row-item/{site}", case, f"render raised {e!r}")
             else:
                 V("no-raise", f"render raised {e!r}", "/" + site)
@@ -289,8 +306,33 @@ class Spec:
             ctx.distinct("nontrivial", (tuple(rows), fpos))
 
     def apply(self, cfg, st: LState, op, ctx: Ctx, hist):
-        lb, size = st.lb, st.size
+        st.depth = len(hist) + 1
         case = {"cfg": cfg, "hist": hist + (op,)}
+        if not isinstance(op, str) and op[0] == "seq":
+            # two application-level calls in one callback: no render in between
+            ok = self._apply1(cfg, st, op[1], ctx, case) and self._apply1(cfg, st, op[2], ctx, case)
+        else:
+            ok = self._apply1(cfg, st, op, ctx, case)
+        if ok is not False:
+            # the main loop renders after every input (a state rebuilt by replay is therefore the rendered one, like the state it was deduplicated as)
+            try:
+                with watchdog(5):
+                    st.lb.render(st.size, True)
+            except WatchdogTimeout:
+                ctx.violation("terminates", f"C07/terminates/render-after-{op if isinstance(op, str) else op[0]}", case, "render did not return")
+                return False
+            except Exception as e:
+                feat = op if isinstance(op, str) else op[0]
+                kinds = kinds_feature(st.body())
+                site = exc_site(e)
+                if kinds == "with-zero-row-item" and site in ZERO_ROW_SITES:
+                    ctx.violation("no-raise", f"C07/raises/zero-row-item/{site}", case, f"render raised {e!r}")
+                else:
+                    ctx.violation("no-raise", f"C07/no-raise/after-{feat}/{kinds}/{site}", case, f"the render after {op!r} raised {e!r}")
+        return ok
+
+    def _apply1(self, cfg, st: LState, op, ctx: Ctx, case):
+        lb, size = st.lb, st.size
         feat = op if isinstance(op, str) else op[0]
         body = st.body()
         try:
@@ -367,7 +409,7 @@ class Spec:
         except Exception as e:
             kinds = kinds_feature(body)
             site = exc_site(e)
-            if kinds == "with-zero-row-item" and site == "ListBoxError@urwid.widget.listbox.ListBox.shift_focus":
+            if kinds == "with-zero-row-item" and site in ZERO_ROW_SITES:
                 sig = f"C07/raises/zero-row-item/{site}"  # one root cause whatever the event
             else:
                 sig = f"C07/event-raises/{feat}/{kinds}/{site}"
@@ -393,6 +435,7 @@ def run(tier, R):
                 continue
             for size in ((W, 1), (W, 3)) if quick else SIZES:
                 cfgs.append((wk, kl, size))
+    SEQ_DEPTH[0] = 0 if quick else 1
     spec = Spec(cfgs)
     res = R.bfs(spec, depth=2 if quick else 3, max_states=None if quick else 3_000_000)
     cov = {
@@ -404,7 +447,7 @@ def run(tier, R):
         "rule": f"BFS depth {res['depth']} from {len(cfgs)} initial (walker kind, item list, box size) configurations: lists of 0..{2 if quick else 3} items over "
         "{1-row text, 3-row text, selectable icon, 2- and 5-row Edit, zero-row widget, 3-row Columns[Text, Pile]} + 5 longer lists, walkers SimpleFocusListWalker / SimpleListWalker / "
         "a minimal custom walker, sizes 4x{1,2,3,5}; events: 9 keys, press on every row, wheel, set_focus(i, coming_from), set_focus_valign, resize, walker "
-        "insert/append/delete/replace, an item changing its own height in place (set_text / set_edit_text). Every state is rendered and compared with the slice oracle. non-trivial = distinct (rows, focus) renderings that are scrolled or overflow",
+        "insert/append/delete/replace, an item changing its own height in place (set_text / set_edit_text), and pairs (set_focus / set_focus_valign, then a walker edit or resize, and the reverse for insert / delete) with no render in between. Every state is rendered and compared with the slice oracle. non-trivial = distinct (rows, focus) renderings that are scrolled or overflow",
         "exhaustive": not res["capped"],
         "bfs_levels": res["levels"],
     }
